@@ -16,6 +16,7 @@ def plan(tier, seed):
         if i == 0:
             args += ["--builtin", 1]           # the built-in book walk is deterministic: once
             args += ["--huge", 1 if quick else 3]  # sparse book files > 2 GiB (0.1 s each, no real disk)
+            args += ["--heavy", 2 if quick else 6]  # one key whose weight sum passes 2^30 / 2^31 (D18)
         shards.append(dict(bin=("asan", "c18"), args=args))
     runs = 60000 if quick else 1200000   # ~2.1k exec/s per core
     nf = 2 if quick else 8
